@@ -1005,3 +1005,104 @@ def gen_dot():
 
 
 GENERATORS = GENERATORS + (('Dot', gen_dot),)
+
+
+# ---------------------------------------------------------------------------------------------------------------------
+
+def gen_getitem():
+    """`Context.__getitem__` (try objects / except KeyError: properties / else), `intension`, `extension`, `neighbors`, and
+    `Lattice.__getitem__` / `__call__`."""
+    tree = _src('contexts.py')
+    m = _method(tree, 'PrimeMixin', '__getitem__')
+    if [a.arg for a in m.args.args] != ['self', 'items', 'raw']:
+        raise Decline('Context.__getitem__: signature changed')
+    body = _nodoc(m.body)
+    FAM = {'self._Objects': 'O', 'self._Properties': 'P'}
+
+    def frommembers(node, arg):
+        """self._X.frommembers(<arg>) -> family letter"""
+        if (isinstance(node, ast.Call) and isinstance(node.func, ast.Attribute) and node.func.attr == 'frommembers'
+                and ast.unparse(node.func.value) in FAM and [ast.unparse(a) for a in node.args] == [arg] and not node.keywords):
+            return FAM[ast.unparse(node.func.value)]
+        raise Decline('not a frommembers(%s) call: %s' % (arg, ast.unparse(node)))
+
+    def unpack_dp(st, env):
+        """a, b = x.doubleprime() -> lean line; env maps python names to the family of the bit set they hold"""
+        if not (isinstance(st, ast.Assign) and len(st.targets) == 1 and isinstance(st.targets[0], ast.Tuple) and len(st.targets[0].elts) == 2
+                and isinstance(st.value, ast.Call) and isinstance(st.value.func, ast.Attribute) and st.value.func.attr == 'doubleprime'
+                and isinstance(st.value.func.value, ast.Name) and st.value.func.value.id in env and not st.value.args):
+            raise Decline('unsupported statement %s' % ast.unparse(st))
+        src = st.value.func.value.id
+        a, b = (e.id for e in st.targets[0].elts)
+        return 'let (%s, %s) := doubleprime%s %s' % (a, b, env[src], src)
+
+    if len(body) < 3 or ast.unparse(body[0]) != 'items = tuple(items)' or not isinstance(body[1], ast.Try):
+        raise Decline('Context.__getitem__: expected `items = tuple(items)` and a try statement')
+    tr = body[1]
+    if (len(tr.body) != 1 or len(tr.handlers) != 1 or ast.unparse(tr.handlers[0].type) != 'KeyError' or tr.handlers[0].name or tr.finalbody):
+        raise Decline('Context.__getitem__: the try statement changed')
+    t0 = tr.body[0]
+    if not (isinstance(t0, ast.Assign) and len(t0.targets) == 1 and isinstance(t0.targets[0], ast.Name)):
+        raise Decline('Context.__getitem__: try body changed')
+    v1, f1 = t0.targets[0].id, frommembers(t0.value, 'items')
+    if len(tr.orelse) != 1:
+        raise Decline('Context.__getitem__: else branch changed')
+    ok_line = unpack_dp(tr.orelse[0], {v1: f1})
+    h = tr.handlers[0].body
+    if len(h) != 2 or not (isinstance(h[0], ast.Assign) and len(h[0].targets) == 1 and isinstance(h[0].targets[0], ast.Name)):
+        raise Decline('Context.__getitem__: except branch changed')
+    v2, f2 = h[0].targets[0].id, frommembers(h[0].value, 'items')
+    ex_line = unpack_dp(h[1], {v2: f2})
+    tail = [ast.unparse(s) for s in body[2:]]
+    if tail != ['if raw:\n    return (extent, intent)', 'return (extent.members(), intent.members())']:
+        raise Decline('Context.__getitem__: the return statements changed: %r' % tail)
+    out = ['import FCA.Model.Defn',
+           '/- GENERATED by harness/extract2.py from Context.__getitem__ / intension / extension / neighbors in concepts/contexts.py and',
+           '   Lattice.__getitem__ / __call__ in concepts/lattices.py — do not edit. `frommembersX items = none` stands for the KeyError. -/',
+           'namespace FCA.Generated', '',
+           'def ctx_getitem (frommembersO frommembersP : List Name → Option Nat) (doubleprimeO doubleprimeP : Nat → Nat × Nat)',
+           '    (items : List Name) : Except Err (Nat × Nat) :=',
+           '  match frommembers%s items with' % f1,
+           '  | some %s =>' % v1, '    ' + ok_line, '    .ok (extent, intent)',
+           '  | none =>',
+           '    match frommembers%s items with' % f2,
+           '    | some %s =>' % v2, '      ' + ex_line, '      .ok (extent, intent)',
+           '    | none => .error .keyError', '']
+    # one-line derivations: (family, operation)
+    cfg = {}
+    for name, arg, var in (('intension', 'objects', 'intent'), ('extension', 'properties', 'extent')):
+        mm = _method(tree, 'PrimeMixin', name)
+        b = _nodoc(mm.body)
+        if len(b) != 3 or [ast.unparse(s) for s in b[1:]] != ['if raw:\n    return %s' % var, 'return %s.members()' % var]:
+            raise Decline('%s: body changed' % name)
+        st = b[0]
+        if not (isinstance(st, ast.Assign) and ast.unparse(st.targets[0]) == var and isinstance(st.value, ast.Call)
+                and isinstance(st.value.func, ast.Attribute) and not st.value.args):
+            raise Decline('%s: first statement changed' % name)
+        cfg[name] = (frommembers(st.value.func.value, arg), st.value.func.attr)
+    nb = _method(tree, 'LatticeMixin', 'neighbors')
+    b = _nodoc(nb.body)
+    st = b[0]
+    if not (isinstance(st, ast.Assign) and ast.unparse(st.targets[0]) == 'objects' and isinstance(st.value, ast.Call)
+            and isinstance(st.value.func, ast.Attribute) and not st.value.args):
+        raise Decline('neighbors: first statement changed')
+    cfg['neighbors'] = (frommembers(st.value.func.value, 'objects'), st.value.func.attr)
+    if [ast.unparse(s) for s in b[1:]] != ['if raw:\n    return list(self._neighbors(objects))',
+                                          'return [(extent.members(), intent.members()) for extent, intent in self._neighbors(objects)]']:
+        raise Decline('neighbors: body changed')
+    if [ast.unparse(s) for s in _nodoc(_method(tree, 'LatticeMixin', '_neighbors').body)] != ['return algorithms.neighbors(objects, Objects=self._Objects)']:
+        raise Decline('_neighbors changed')
+    lt = _src('lattices.py')
+    gi = [ast.unparse(s) for s in _nodoc(_method(lt, 'CollectionMixin', '__getitem__').body)]
+    if gi != ['if isinstance(key, (int, slice)):\n    return self._concepts[key]', 'if not key:\n    return self.supremum',
+              'extent, intent = self._context.__getitem__(key, raw=True)', 'return self._mapping[extent]']:
+        raise Decline('Lattice.__getitem__ changed: %r' % gi)
+    ca = [ast.unparse(s) for s in _nodoc(_method(lt, 'CollectionMixin', '__call__').body)]
+    if ca != ['extent = self._context.extension(properties, raw=True)', 'return self._mapping[extent]']:
+        raise Decline('Lattice.__call__ changed: %r' % ca)
+    for k in ('intension', 'extension', 'neighbors'):
+        out += ['def %s_cfg : String × String := ("%s", "%s")' % ((k,) + cfg[k])]
+    return '\n'.join(out + ['', 'end FCA.Generated', ''])
+
+
+GENERATORS = GENERATORS + (('Getitem', gen_getitem),)
